@@ -584,6 +584,14 @@ class Driver:
 
     # ---- apply one concrete op; returns False when the case must end (divergence)
     def apply(self, op):
+        try:
+            with _bounded():
+                return self._apply(op)
+        except _Stuck as e:
+            return self._diverge([{"kind": "did-not-return", "props": {"C01", "C02", "C03", "C04"},
+                                   "detail": f"{op[0]} did not return ({e})"}], op)
+
+    def _apply(self, op):
         m = self.mach.m
         k = op[0]
         log = self.mach.log
@@ -981,6 +989,64 @@ class Driver:
             self.sib.close()
 
 
+class _Stuck(BaseException):
+    """A library call did not come back (not an Exception: nothing in the library may swallow it)."""
+
+
+STRICT_BUDGET = {"on": False, "lines": 0}
+LINE_BUDGET = 2_000_000          # lines of repository code one single API call may execute (a normal call executes < 300)
+NOMINATE_AFTER_S = 10            # wall-clock, only NOMINATES a candidate in a shard; the verdict is the line budget in the replay
+
+
+class _bounded:
+    """Around one library call.  In a shard: a wall-clock alarm that nominates 'did not return' (a candidate, to be confirmed).
+    In a replay: the deciding, deterministic bound - sys.monitoring counts the repository lines the call executes."""
+
+    def __enter__(self):
+        import signal
+        import threading
+        self.sig = threading.current_thread() is threading.main_thread()
+        if STRICT_BUDGET["on"]:
+            STRICT_BUDGET["lines"] = 0
+        if self.sig:
+            def on_alarm(_s, _f):
+                raise _Stuck("wall-clock nomination")
+            self.old = signal.signal(signal.SIGALRM, on_alarm)
+            signal.setitimer(signal.ITIMER_REAL, 600 if STRICT_BUDGET["on"] else NOMINATE_AFTER_S)
+        return self
+
+    def __exit__(self, *a):
+        import signal
+        if self.sig:
+            signal.setitimer(signal.ITIMER_REAL, 0)
+            signal.signal(signal.SIGALRM, self.old)
+        return False
+
+
+def _enable_line_budget():
+    """Replay only: every line of repository code counts; a call beyond LINE_BUDGET lines is declared non-terminating."""
+    import os
+    import sys
+    mon = sys.monitoring
+    root = os.path.abspath(os.environ.get("VERIF_REPO", "/repo")) + os.sep
+    tool = 2
+
+    def on_line(code, line):
+        if not code.co_filename.startswith(root):
+            return mon.DISABLE
+        STRICT_BUDGET["lines"] += 1
+        if STRICT_BUDGET["lines"] > LINE_BUDGET:
+            STRICT_BUDGET["lines"] = 0
+            raise _Stuck(f"more than {LINE_BUDGET} lines of library code in one call")
+    try:
+        mon.use_tool_id(tool, "vf-budget")
+        mon.register_callback(tool, mon.events.LINE, on_line)
+        mon.set_events(tool, mon.events.LINE)
+        STRICT_BUDGET["on"] = True
+    except Exception:  # noqa
+        pass
+
+
 def _set_ds(mode):
     import wpilib
     from wpilib.simulation import DriverStationSim as DS
@@ -1066,6 +1132,13 @@ class AutoDriver:
         return True
 
     def apply(self, op):
+        try:
+            with _bounded():
+                return self._apply(op)
+        except _Stuck as e:
+            return self.fail("did-not-return", f"{op[0]} did not return ({e})", op)
+
+    def _apply(self, op):
         a, t = self.auto.m, self.twin.m
         k = op[0]
         del self.auto.log[:]
@@ -1338,6 +1411,11 @@ def run_shard(spec):
         if d.violation is not None:
             key = classify(pid, d.violation)
             acc.violation(key, d.violation["detail"], concrete, d.violation)
+        if d.events.get("divergence-did-not-return") or (d.violation or {}).get("first") == "did-not-return":
+            stuck = acc.extra["calls_that_did_not_return"] = acc.extra.get("calls_that_did_not_return", 0) + 1
+            if stuck >= 2:
+                acc.extra["shard_stopped_early"] = f"after {i + 1} of {spec['n']} cases: two library calls did not return"
+                break
         if len(acc.samples) < 2 and d.nontrivial():
             acc.samples.append({"shape": [{k: v for k, v in s.items() if k in ("name", "kind", "first", "must_finish", "next", "dur_us", "sig")}
                                           for c in case["classes"] for s in c["states"]],
@@ -1353,6 +1431,7 @@ def run_shard(spec):
 def replay(pid, case):
     import hal.simulation as hs
     hs.pauseTiming()
+    _enable_line_budget()
     acc = Acc()
     case = dict(case)
     case["pid"] = pid
